@@ -201,6 +201,18 @@ class RefModel(object):
         dudx = -np.linalg.solve(Ju, Jx) if self.nu else np.zeros((0, self.nx))
         return dudx, cond
 
+    def totals_scale(self, u, x):
+        """max entry of |(dR/du)^-1| |dR/dx|: the size of the terms that are summed (and may cancel) when du/dx is formed,
+        i.e. the quantity the round-off of any solution method is relative to."""
+        if not self.nu:
+            return 0.0
+        Ju, Jx = self.jacobians(u, x)
+        try:
+            S = np.abs(np.linalg.inv(Ju)) @ np.abs(Jx)
+        except np.linalg.LinAlgError:
+            return float('inf')
+        return float(np.max(S)) if S.size else 0.0
+
     # selections ---------------------------------------------------------------------------------
     def var_positions(self, name, indices=None, flat_indices=False):
         """Return ('u'|'x', positions) of a variable optionally indexed like add_design_var/add_constraint."""
